@@ -156,7 +156,8 @@ Definition own_written (t : tid) (pk : Z) (log : list wentry) : bool :=
 (* OngoingTx.Get on the mapped primary-key entry (tx.get in UpsertIntoStmt / UpdateStmt).
    Snapshot.GetWithFilters applies IgnoreDeleted to the snapshot's own value reference BEFORE the
    refInterceptor substitutes the ongoing entry; a key written by this tx was snap.set with a
-   blank (non-deleted) indexed value, so it is always "found", even when the tx deleted it. *)
+   blank (non-deleted) indexed value, so it is always "found", even when the tx deleted it
+   (UpsertIntoStmt then looks at the returned reference's metadata, see m_exists). *)
 Definition mget (d : db) (last : N) (t : tid) (pk : Z) (x : mtx) : mtx * bool :=
   let x1 := touch d last t x in
   if own_written t pk (x_log x1) then (x1, true)
@@ -185,11 +186,23 @@ Definition note_pk (t : tid) (pk : Z) (x : mtx) : mtx :=
                (match tg t (k_first c) with Some _ => k_first c | None => ts t (Some pk) (k_first c) end)) x
   else x.
 
+(* the last write of the transaction to (t, pk) is a delete *)
+Definition own_deleted (t : tid) (pk : Z) (log : list wentry) : bool :=
+  fold_left (fun acc w => if i3_eqb (w_tid w) t && (w_pk w =? pk)%Z then is_del (w_kind w) else acc) log false.
+
+(* the key-existence test of UpsertIntoStmt.execAt: tx.get on the mapped primary-key entry, and
+   (since 62a15b5) a reference whose KVMetadata is Deleted counts as "not found": the reference
+   tx.get returns for a key written by this transaction carries the metadata of the transaction's
+   last write to it *)
+Definition m_exists (d : db) (last : N) (t : tid) (pk : Z) (x : mtx) : mtx * bool :=
+  let '(x1, found) := mget d last t pk x in
+  (x1, found && negb (own_deleted t pk (x_log x1))).
+
 (* one VALUES row of INSERT (isins) / UPSERT with an explicit id *)
 Definition m_put_row (d : db) (last : N) (isins : bool) (t : tid) (pk v : Z) (x : mtx) : option mtx :=
   let must := autoinc t && (pk <=? tg t (x_maxpk x))%Z in   (* pkMustExist *)
   let x1 := note_pk t pk x in
-  let '(x2, found) := mget d last t pk x1 in
+  let '(x2, found) := m_exists d last t pk x1 in
   if negb found && must then None
   else if isins && found then None                          (* ErrKeyAlreadyExists *)
   else mwrite d last (W t pk (if isins then WIns else WUps) v) x2.
@@ -199,7 +212,7 @@ Definition m_ins_auto (d : db) (last : N) (t : tid) (v : Z) (x : mtx) : option m
   if autoinc t then
     let pk := (tg t (x_maxpk x) + 1)%Z in
     let x1 := note_pk t pk (set_maxpk (ts t pk (x_maxpk x)) x) in
-    let '(x2, found) := mget d last t pk x1 in
+    let '(x2, found) := m_exists d last t pk x1 in
     if found then None else mwrite d last (W t pk WIns v) x2
   else None.                                                (* id is NOT NULL *)
 
